@@ -109,10 +109,19 @@ pub fn gen_session(rng: &mut Rng, big_args: bool) -> Session {
         };
         // server side for this command
         for _ in 0..rng.below(6) {
-            match rng.below(5) {
+            match rng.below(if big_args { 7 } else { 5 }) {
                 0 => {
                     let la = look_alike(rng, &tag);
                     server.extend(completion(rng, &la))
+                }
+                5 => {
+                    // a message body of tens of kilobytes (the receive buffer grows well beyond its initial 8 KiB)
+                    let len = *rng.pick(&[9000usize, 20000, 40000]);
+                    server.extend_from_slice(format!("* {} FETCH (BODY[] {{{}}}\r\n", 1 + rng.below(99), len).as_bytes());
+                    for k in 0..len {
+                        server.push(b"mail text )\r\nA0001 OK\r\n"[k % 23]);
+                    }
+                    server.extend_from_slice(b")\r\n");
                 }
                 _ => loop {
                     let (v, enc) = gen_pair(rng, true);
@@ -149,13 +158,15 @@ pub fn gen_session(rng: &mut Rng, big_args: bool) -> Session {
     // chunk the server stream
     let mut reads = vec![];
     let mut pos = 0;
-    let fine = rng.chance(1, 3);
+    let fine = rng.chance(1, 3) && server.len() < 20000;
+    let coarse = !fine && rng.chance(1, 3);
     if rng.chance(1, 4) {
         reads.push(Rd::NotReady);
     }
     while pos < server.len() {
         let small = rng.chance(1, 3);
-        let n = if fine { 1 + rng.below(3) } else { 1 + rng.below(if small { 10 } else { 400 }) };
+        // coarse: whole bursts, so that a completion and whatever follows it arrive in one read
+        let n = if fine { 1 + rng.below(3) } else if coarse { 1 + rng.below(70000) } else { 1 + rng.below(if small { 10 } else { 400 }) };
         let end = (pos + n).min(server.len());
         reads.push(Rd::Chunk(server[pos..end].to_vec()));
         pos = end;
@@ -195,7 +206,7 @@ pub fn gen_session(rng: &mut Rng, big_args: bool) -> Session {
 }
 
 /// Runs the session on the real client; returns (observations, read results actually consumed).
-pub fn run_session(s: &Session) -> (String, Vec<String>, Vec<u8>) {
+pub fn run_session(s: &Session) -> (String, Vec<String>, Vec<u8>, String) {
     let waker = Waker::noop();
     let mut cx = Context::from_waker(&waker);
     let io = MockIo::new(s.reads.clone(), s.writes.clone(), s.flushes.clone());
@@ -224,7 +235,7 @@ pub fn run_session(s: &Session) -> (String, Vec<String>, Vec<u8>) {
     }
     let st = io.0.borrow();
     let consumed: Vec<String> = st.log.iter().filter(|l| l.starts_with('r')).cloned().collect();
-    (obs.join(";"), consumed, st.wire.clone())
+    (obs.join(";"), consumed, st.wire.clone(), st.log.join(","))
 }
 
 fn show_wr(w: &Wr) -> String {
@@ -279,7 +290,7 @@ pub fn reference(server: &[u8]) -> String {
 }
 
 pub fn emit_session(s: &Session) {
-    let (obs, consumed, wire) = run_session(s);
+    let (obs, consumed, wire, tlog) = run_session(s);
     // the model replays the reads that actually happened (chunk sizes as the transport delivered them)
     let mut pos = 0usize;
     let mut rd = vec![];
@@ -314,7 +325,7 @@ pub fn emit_session(s: &Session) {
             hex(&l)
         })
         .collect();
-    println!("{}\t{};wire={}\t{}|{}", sess, obs, hex(&wire), reference(&s.server), lines.join(","));
+    println!("{}\t{};wire={}\t{}|{}|{}", sess, obs, hex(&wire), reference(&s.server), lines.join(","), tlog);
 }
 
 pub fn main(args: &[String]) {
